@@ -24,6 +24,7 @@ import numpy as np
 from vlib import common
 from checks import _signal as S
 from checks import c12_engine
+from checks import coeftab
 
 LEVEL = "proof"
 COVER_RULE = 'covering set (checks/_signal.py cover): a seeded pool of candidate configurations - %s - is planned by the REAL library; every candidate is labelled with its plan class (per stage: half-band / dft stage with F-domain or time-domain rate change, decimation grid aligned to block_len or not / poly-phase order) and its knob; one member of EVERY (plan class, knob) pair is measured, cheapest implementation periods first, members rotating with the seed; the run reports a violation when a required planner path or engine (REQUIRED_CLASSES, REQUIRED_ORDERS, cr32 / cr32s / cr64 / cr64s) is not hit. '
@@ -253,7 +254,8 @@ CLAUSES = [  # (key in the job result, what, needs-rational)
 
 
 def run(ctx):
-    broken = common.proof_stage(ctx, ["SoxrModel.Properties.C12", "SoxrModel.Properties.C12Engine", "SoxrModel.Properties.C12Fir"], ["C12", "C12Engine", "C12Fir"], exes=("soxrmodel",), gens=())
+    broken = common.proof_stage(ctx, ["SoxrModel.Properties.C12", "SoxrModel.Properties.C12Engine", "SoxrModel.Properties.C12Fir", "SoxrModel.Properties.C04Coef"], ["C12", "C12Engine", "C12Fir", "C04Coef"], exes=("soxrmodel",), gens=())
+    coeftab.run(ctx, broken, "C12")
     S.harness()
     S.set_active("C12")
     rng = ctx.rng
